@@ -419,6 +419,25 @@ func fnHello(ctx *cmdContext, args map[string]any) (output respValue, err error)
 	if hasArgs {
 		ver, hasVer := helloArgs.mustGet("protover").(int64)
 		if hasVer {
+			if ver != 2 && ver != 3 {
+				// refused: the connection keeps the protocol it has
+				output.data = respErrorString("NOPROTO unsupported protocol version")
+				return
+			}
+		}
+		if name, hasName := helloArgs.get("clientname"); hasName {
+			if str, isStr := name.(string); isStr {
+				for _, ch := range str {
+					if ch < 33 {
+						// refused as a whole: neither name nor protocol change
+						output.data = respErrorString("ERR Client names cannot contain spaces, newlines or special characters.")
+						return
+					}
+				}
+				ctx.cs.name = str
+			}
+		}
+		if hasVer {
 			ctx.cs.respVersion = int(ver)
 		}
 	}
